@@ -156,15 +156,22 @@ fn part2(spec: &RuleSpec, depth: usize) -> Stats {
             }
         }
         let probes: Vec<MObj> = all_docs.iter().step_by((all_docs.len() / 8).max(1)).take(8).cloned().collect();
-        // fresh verdict of every alphabet document
+        // fresh verdict of every alphabet document: a fresh rule on a fresh OS thread, so that
+        // neither the rule nor thread-local state has seen any document before
         let fresh: Vec<Result<bool, String>> = alpha
             .iter()
             .map(|d| {
-                let r = eng::load(&yaml).ok().and_then(|r| eng::optimise_with(&r, sw, &[]).ok()).map(|x| x.0);
-                match r {
-                    Some(r) => eng::matches(&r, d),
-                    None => Err("load".into()),
-                }
+                let y = yaml.clone();
+                let d = d.clone();
+                std::thread::spawn(move || {
+                    let r = eng::load(&y).ok().and_then(|r| eng::optimise_with(&r, sw, &[]).ok()).map(|x| x.0);
+                    match r {
+                        Some(r) => eng::matches(&r, &d),
+                        None => Err("load".into()),
+                    }
+                })
+                .join()
+                .unwrap_or_else(|_| Err("thread".into()))
             })
             .collect();
         let initial = observe(&rule, &probes);
@@ -553,6 +560,8 @@ pub fn run(tier: Tier) -> i32 {
         let mut v: Vec<RuleSpec> = gen::family_matrix(0).into_iter().step_by(if th { 9 } else { 61 }).collect();
         v.extend(gen::family_conditions(0).into_iter().step_by(if th { 11 } else { 67 }));
         v.extend(gen::family_single(0).into_iter().step_by(if th { 13 } else { 71 }));
+        v.extend(gen::family_wide().into_iter().step_by(if th { 1 } else { 3 }));
+        v.extend(gen::family_castconds(0).into_iter().step_by(if th { 17 } else { 97 }));
         v
     };
     let parts: Vec<Stats> = hist_specs.par_iter().map(|s| part2(s, 4)).collect();
